@@ -128,7 +128,22 @@ func execC20(c c20Case, x *verifkit.Ctx) (fail *verifkit.Failure) {
 				wmu.Lock()
 				waitsActive--
 				wmu.Unlock()
-				// barrier: everything this goroutine wrote before Wait has been applied
+				// barrier: everything this goroutine wrote before Wait has been applied.
+				// First what can be observed without the policy lock (taking it would wait for the
+				// batch in progress and hide a wake-up that came too early):
+				for v := range deleted {
+					logMu.Lock()
+					_, isLogged := logged[v]
+					logMu.Unlock()
+					if !isLogged {
+						report(verifkit.Failf("barrier/delete-not-applied", "goroutine %d round %d: Wait returned but the value %#x deleted before it has no removal notification yet", g, ri, v))
+					}
+				}
+				if G == 1 {
+					if l := s.Len(); l > c.MaxSize {
+						report(verifkit.Failf("barrier/evictions-not-done", "single client, round %d: Wait returned but Len is %d with MaxSize %d (unit costs): the evictions caused by the writes before Wait have not happened yet", ri, l, c.MaxSize))
+					}
+				}
 				s.policyMu.Lock()
 				for _, v := range written {
 					if overwritten[v] {
